@@ -237,6 +237,28 @@ def check_vector(v):
                 bad.append({"what": "scores of a motif built from probabilities and a background differ from the log odds of each letter against its own background",
                             "tags": dict(tags, op="get_motif_scores[from_dict background]"),
                             "vector": v, "case": {"texts": texts, "probabilities": probs, "background": bg}, "expected": expl, "observed": o})
+            # the motif given as counts (PWM.from_counts), the letters listed in reversed alphabet order and in a rotated order; the sequences
+            # are given as plain text (sequences already encoded in an alphabet of another order are refused by design)
+            if A >= 3:
+                for oname, order in (("reversed", list(reversed(range(A)))), ("rotated", list(range(1, A)) + [0])):
+                    cnt = {}
+                    for a in order:
+                        cnt[alpha[a]] = [0] * k
+                    others = [a for a in range(A) if a not in (mp[0], mp[1])]
+                    for p_ in range(k):
+                        c1 = [2 ** v["pexp"][k - 1][l][p_] for l in (0, 1)]
+                        rest = 16 - sum(c1) - (len(others) - 1)
+                        for l in (0, 1):
+                            cnt[alpha[mp[l]]][p_] = c1[l] - 1
+                        for j_, a in enumerate(others):
+                            cnt[alpha[a]][p_] = (rest if j_ == 0 else 1) - 1
+                    o = outcome(lambda: [[float(x) for x in row] for row in get_motif_scores(bnp.as_encoded_array(texts), PWM.from_counts(cnt)).tolist()])
+                    n += 1
+                    expf = [[float(x) * float(np.log(2)) for x in row] for row in v["scoresFC"][k - 1]]
+                    if o[0] != "ok" or [len(r) for r in o[1]] != [len(r) for r in expf] or any(abs(g - e) > 1e-9 for gr, er in zip(o[1], expf) for g, e in zip(gr, er)):
+                        bad.append({"what": "scores of a motif built from counts differ from the log of each letter's own (count + 1) over the column total",
+                                    "tags": dict(tags, op="get_motif_scores[from_counts %s]" % oname),
+                                    "vector": v, "case": {"texts": texts, "counts": cnt}, "expected": expf, "observed": o})
             # minimisers
             for w in range(k, W + 1):
                 if total < w or mp[0] > mp[1]:
